@@ -1032,3 +1032,59 @@ func dedupStrings(in []string) []string {
 	}
 	return out
 }
+
+// reachByCalls: the functions of the package under verification that the given functions
+// reach through calls: static calls, interface dispatch and closures they create. A function
+// that is only TAKEN AS A VALUE (the builtin tables) is not followed: builtins run under the
+// recover of CallUserFunction / Apply (guard.recover obligations).
+func (c *Ctx) reachByCalls(roots map[string]bool) []string {
+	g := c.modsets().graph
+	seen := map[*ssa.Function]bool{}
+	var work []*ssa.Function
+	for n := range roots {
+		if f := c.funcs[n]; f != nil {
+			seen[f] = true
+			work = append(work, f)
+		}
+	}
+	for len(work) > 0 {
+		f := work[len(work)-1]
+		work = work[:len(work)-1]
+		add := func(t *ssa.Function) {
+			if t == nil || seen[t] || t.Blocks == nil || t.Pkg == nil || t.Pkg.Pkg != c.tpkg {
+				return
+			}
+			seen[t] = true
+			work = append(work, t)
+		}
+		for _, b := range f.Blocks {
+			for _, in := range b.Instrs {
+				if ci, ok := in.(ssa.CallInstruction); ok {
+					cc := ci.Common()
+					if cal := cc.StaticCallee(); cal != nil {
+						add(cal)
+					}
+					if cc.IsInvoke() {
+						for _, t := range g.dispatch(cc.Value.Type(), cc.Method) {
+							add(t)
+						}
+					}
+				}
+				if mc, ok := in.(*ssa.MakeClosure); ok {
+					if fn, ok := mc.Fn.(*ssa.Function); ok {
+						add(fn)
+					}
+				}
+			}
+		}
+	}
+	var out []string
+	for f := range seen {
+		n := f.RelString(c.tpkg)
+		if _, ok := c.funcs[n]; ok {
+			out = append(out, n)
+		}
+	}
+	sort.Strings(out)
+	return out
+}
